@@ -73,7 +73,7 @@ def try_search(qual, o, repo, seed=0):
 
 
 def write_replay(pid, qual, o, repo):
-    d = os.path.join(VERIF, "replays", pid)
+    d = os.path.join(VERIF, "replays" if os.path.realpath(repo.root) == "/repo" else ".selftest/replays", pid)
     os.makedirs(d, exist_ok=True)
     fn = re.sub(r"[^A-Za-z0-9_.#-]+", "_", o["name"])[:150] + ".json"
     path = os.path.join(d, fn)
